@@ -270,6 +270,14 @@ impl Node {
                     edp_client::Connection::receive_message_from_read_half(&mut read_half, timeout)
                         .await;
 
+                #[cfg(edp_rs_verif)]
+                edp_client::verif::point(
+                    format!("rx:{}", remote_node),
+                    "rx.frame",
+                    if result.is_ok() { "ok" } else { "err" },
+                )
+                .await;
+
                 match result {
                     Ok((control_msg, payload)) => {
                         let payload_len = payload.as_ref().map(|p| p.len()).unwrap_or(0);
@@ -313,6 +321,8 @@ impl Node {
                 }
             }
 
+            #[cfg(edp_rs_verif)]
+            edp_client::verif::point(format!("rx:{}", remote_node_clone), "rx.closing", "").await;
             connections.remove(&remote_node_clone);
             tracing::debug!(
                 "Receiver task for {} terminated, connection removed",
@@ -682,7 +692,11 @@ impl Node {
             "{}.{}.{}",
             reply_to_pid.id, reply_to_pid.serial, reply_to_pid.creation
         );
+        #[cfg(edp_rs_verif)]
+        edp_client::verif::point("caller", "rpc.allocated", pid_str.clone()).await;
         self.pending_rpcs.insert(pid_str.clone(), tx);
+        #[cfg(edp_rs_verif)]
+        edp_client::verif::point("caller", "rpc.inserted", pid_str.clone()).await;
 
         tracing::debug!("RPC call_request: {:?}", call_request);
         tracing::debug!("RPC reply_to_pid: {:?}", reply_to_pid);
@@ -701,6 +715,12 @@ impl Node {
                 return Err(e.into());
             }
             tracing::trace!("Message sent to rex");
+            #[cfg(edp_rs_verif)]
+            {
+                drop(conn_guard);
+                drop(conn);
+                edp_client::verif::point("caller", "rpc.sent", pid_str.clone()).await;
+            }
         } else {
             tracing::error!("No connection found for node: {}", remote_node);
             self.pending_rpcs.remove(&pid_str);
@@ -710,6 +730,8 @@ impl Node {
         let response = tokio::time::timeout(timeout, rx).await;
 
         if response.is_err() {
+            #[cfg(edp_rs_verif)]
+            edp_client::verif::point("caller", "rpc.timed_out", pid_str.clone()).await;
             self.pending_rpcs.remove(&pid_str);
         }
 
